@@ -408,3 +408,38 @@ def proveTreeW (E : ClientEnv σ H) (fuel : Nat) (t n : Int) (tree : Tree H) (wo
   ModVerif.Generated.TlogW.ProveTree (W := CW σ H) E.node (fun idx w => readHashesW E fuel tree idx w) fuel t n () world
 end
 `
+
+// The go.mod PARSER with its pointer graph: nodes are heap objects (a pointer is an Int), the interface Expr is a sum of
+// pointers, `x.Comment()` is the owning node, interior pointers (&x.LParen) are the owner's pointer.
+func init() {
+	lex := []string{"isIdent", "input.eof", "input.peekRune", "input.peekPrefix", "input.readRune", "tokenKind.isComment", "tokenKind.isEOL",
+		"input.startToken", "input.endToken", "input.peek", "input.lex", "input.readToken"}
+	syn := []string{"Position.add", "CommentBlock.Span", "Line.Span", "LineBlock.Span", "LParen.Span", "RParen.Span", "FileSyntax.Span", "reverseComments",
+		"input.order", "input.assignComments", "input.parseLine", "input.parseLineBlock", "input.parseStmt", "input.parseFile"}
+	wf := map[string]string{}
+	for _, n := range syn[1:] {
+		if n != "reverseComments" {
+			wf[n] = "Heap"
+		}
+	}
+	g2lUnits = append(g2lUnits, &g2lUnit{
+		out: "FnParse", ns: "Parse", pkgDir: "modfile",
+		imports:      []string{"ModVerif.Basic.GoRtUtf8", "ModVerif.Basic.GoRtStrings", "ModVerif.Basic.GoRtHeap", "ModVerif.Basic.GoRtRunes"},
+		structNames:  []string{"Position", "Comment", "Comments", "CommentBlock", "LParen", "RParen", "Line", "LineBlock", "Expr", "FileSyntax", "token", "input"},
+		structFields: map[string][]string{"input": {"complete", "remaining", "tokenStart", "token", "pos", "comments", "file", "pre", "post"}},
+		sumTypes:     map[string][]string{"Expr": {"CommentBlock", "LParen", "RParen", "Line", "LineBlock", "FileSyntax"}},
+		sumNil:       map[string]bool{"Expr": true},
+		heapTypes:    map[string]string{"CommentBlock": "cbs", "Line": "lines", "LineBlock": "blocks", "FileSyntax": "files"},
+		interior:     map[string]string{"LParen": "LineBlock.LParen", "RParen": "LineBlock.RParen"},
+		ownerPtr:     map[string]string{"Comments": "Expr"},
+		ownerCalls:   map[string]bool{"Comment": true},
+		fns:          append(append([]string{}, lex...), syn...),
+		inout: map[string]string{"input.readRune": "in", "input.startToken": "in", "input.endToken": "in", "input.lex": "in", "input.readToken": "in",
+			"input.order": "in", "input.assignComments": "in", "input.parseLine": "in", "input.parseLineBlock": "in", "input.parseStmt": "in", "input.parseFile": "in",
+			"reverseComments": "list"},
+		worldFns:   wf,
+		panicCalls: map[string]bool{"input.Error": true},
+		absFuncs:   map[string]string{"unicode.IsPrint": "isPrint", "unicode.IsSpace": "isSpace"},
+		absSigs:    map[string]string{"isPrint": "Int → Bool", "isSpace": "Int → Bool"},
+	})
+}
